@@ -610,6 +610,12 @@ class EQLTranslator:
         if anchor_dao is None:
             raise MissingDAOError("Selected variable has no DAO class")
 
+        if left_dao is not anchor_dao and right_dao is not anchor_dao:
+            # the statement selects from the selected variable's table: a JOIN has to start there
+            raise UnsupportedQueryTypeError(
+                "An equality between attributes of two variables none of which is selected cannot be translated"
+            )
+
         if left_dao is anchor_dao:
             target_dao, target_fk, anchor_fk = right_dao, right_fk, left_fk
         else:
